@@ -36,7 +36,7 @@ var c20VarNames = []string{"VA", "ZED"}
 var c20VarVals = []string{"valone", "two words"}
 
 func (p c20Prog) names() []string {
-	n := []string{"zeta", "alpha", "mid"}[:p.NTasks]
+	n := []string{"zeta", "alpha", "mid", "a_much_longer_task_name", "b"}[:p.NTasks]
 	if p.Default {
 		n[len(n)-1] = "default"
 	}
@@ -96,7 +96,7 @@ func (p c20Prog) text() string {
 
 func c20Progs(tier string) []c20Prog {
 	var out []c20Prog
-	maxT := 3
+	maxT := 5
 	for nt := 1; nt <= maxT; nt++ {
 		for _, docs := range []bool{false, true} {
 			for _, def := range []bool{false, true} {
@@ -104,6 +104,9 @@ func c20Progs(tier string) []c20Prog {
 					for nv := 0; nv <= 2; nv++ {
 						for _, chain := range []bool{false, true} {
 							if chain && nt == 1 {
+								continue
+							}
+							if nt > 3 && (nc != 1 || nv != 1) && tier != "thorough" {
 								continue
 							}
 							for _, fd := range []bool{true, false} {
